@@ -280,6 +280,12 @@ def setups(draw, table):
     if dec == 'BeliefPropagationOSDDecoder':
         dparams = {'osd_order': draw(st.sampled_from([0, 10])),
                    'max_bp_iter': draw(st.sampled_from([10, 1000]))}
+    elif dec == 'MatchingDecoder':
+        # one-sector matching (a documented option) leaves the other sector's
+        # syndrome behind: trials outside the code space
+        et = draw(st.sampled_from([None, None, 'X', 'Z']))
+        if et is not None:
+            dparams = {'error_type': et}
     return {'decoder': dec, 'dparams': dparams, 'code': domain.code_case(cls, size),
             'direction': r, 'noise_deformation': nd, 'noise_kwargs': nk,
             'error_rate': draw(st.sampled_from([0.02, 0.05, 0.1, 0.2, 0.3, 0.6, 0.75, 0.9])),
